@@ -399,7 +399,7 @@ pub fn run(tier: Tier, seed: u64) -> i32 {
             rep.broken(format!("strace analyser self-test failed: {:?}", a));
         }
     }
-    let n = tier.pick(110, 1100);
+    let n = tier.pick(200, 2000);
     let res = par_map(n, crate::util::ncpu(), |i| {
         let mut rng = Rng::new(seed).fork(0x1600 + i as u64);
         let focus = match i % 3 {
@@ -434,7 +434,7 @@ pub fn run(tier: Tier, seed: u64) -> i32 {
             );
         }
     }
-    let nc = tier.pick(70, 700);
+    let nc = tier.pick(120, 1200);
     let res = par_map(nc, crate::util::ncpu(), |i| (i, compress_case(&rep, i, seed)));
     for (i, r) in res {
         if let Some(why) = r {
